@@ -172,7 +172,8 @@ func (p *parser) infix(node Node, first, prec int) (Node, error) {
 				if err != nil {
 					return nil, err
 				}
-			case lexer.QuotedIdentifierToken, lexer.UnquotedIdentifierToken:
+			case lexer.QuotedIdentifierToken, lexer.UnquotedIdentifierToken,
+				lexer.InToken, lexer.LetToken:
 				if err := p.advance(); err != nil {
 					return nil, err
 				}
@@ -1640,7 +1641,16 @@ func (p *parser) parse() (Node, error) {
 func (p *parser) primaryExpression() (Node, error) {
 	var node Node
 	var err error
-	switch p.curr.Type {
+
+	// let and in are keywords only where a let expression needs them: let
+	// in front of a variable binding, in after the bindings (consumed by
+	// let()). Anywhere else they are ordinary identifiers.
+	typ := p.curr.Type
+	if typ == lexer.InToken || typ == lexer.LetToken && p.next.Type != lexer.VariableToken {
+		typ = lexer.UnquotedIdentifierToken
+	}
+
+	switch typ {
 	case lexer.AddToken:
 		if err := p.advance(); err != nil {
 			return nil, err
@@ -1996,7 +2006,7 @@ func (p *parser) selectObject(child Node) (Node, error) {
 			if err != nil {
 				return nil, err
 			}
-		case lexer.UnquotedIdentifierToken:
+		case lexer.UnquotedIdentifierToken, lexer.InToken, lexer.LetToken:
 			key = p.curr.Value
 		default:
 			return nil, &unexpectedTokenError{p.curr.Value}
